@@ -7,8 +7,10 @@ Anchors: src/base/QXmppDiscoveryIq.cpp  (identityLessThan, verificationString),
 
 Strings are lists of Unicode scalar values (`List Char`: a QString holding well-formed text).
 Two collations on them:
-  `lt16` — lexicographic on UTF-16 code units  = `QString::operator<` (what the C++ sorts by);
-  `lt8`  — lexicographic on UTF-8 octets        = "i;octet" of RFC 4790 (what XEP-0115 §5.1 asks for).
+  `lt16` — lexicographic on UTF-16 code units  = `QString::operator<` (only the internal order of the QMap today);
+  `lt8`  — lexicographic on UTF-8 octets        = "i;octet" of RFC 4790 (what XEP-0115 §5.1 asks for, and — since
+           repo commit 0beac74 "entity capabilities hash sorts by UTF-16 code units instead of octets" — what the
+           C++ sorts by: `octetLessThan` = `s1.toUtf8() < s2.toUtf8()`).
 
 `verStringCode` transcribes `QXmppDiscoveryIq::verificationString()` (the string S that is hashed);
 `verStringSpec` is XEP-0115 §5.1 applied to what the same object puts on the wire.
@@ -100,7 +102,8 @@ structure Info where
 
 def formTypeKey : Str := "FORM_TYPE".toList
 
-/-- `identityLessThan` of QXmppDiscoveryIq.cpp with the string comparison as a parameter -/
+/-- `identityLessThan` of QXmppDiscoveryIq.cpp with the string comparison as a parameter: `operator<` of the
+tuples (category, type, language, name), i.e. component by component -/
 def identityLessThan (lt : Str → Str → Bool) (a b : Identity) : Bool :=
   if lt a.category b.category then true
   else if lt b.category a.category then false
@@ -127,17 +130,18 @@ def Value.toStr : Value → Str
   | .bool false => "false".toList
 
 /-- the values the C++ appends for a field, as a list: `canConvert<QStringList>()` holds for QString
-(one-element list) and QStringList (sorted with `QStringList::sort`), not for bool (`toString()`) -/
+(one-element list) and QStringList (sorted with `octetLessThan`), not for bool (`toString()`) -/
 def Value.codeVals : Value → List Str
   | .text s => [s]
-  | .list vs => isort lt16 vs
+  | .list vs => isort lt8 vs
   | .bool b => [(Value.bool b).toStr]
 
 /-- `key + '<' + list.join('<') + '<'` -/
 def fieldStrCode (f : Field) : Str :=
   f.key ++ '<' :: (join '<' f.value.codeVals ++ ['<'])
 
-/-- `QMap<QString, Field>::insert`: the map is a list sorted strictly by key; an existing key is replaced -/
+/-- `QMap<QString, Field>::insert`: the map is a list sorted strictly by key (`QString::operator<`, UTF-16 order);
+an existing key is replaced -/
 def mapInsert (m : List Field) (f : Field) : List Field :=
   match m with
   | [] => [f]
@@ -149,11 +153,14 @@ def mapInsert (m : List Field) (f : Field) : List Field :=
 /-- `for (field : form.fields()) fieldMap.insert(field.key(), field)` -/
 def buildMap (fields : List Field) : List Field := fields.foldl mapInsert []
 
-def sortedIdentitiesCode (i : Info) : List Identity := isort (identityLessThan lt16) i.ids
-def sortedFeaturesCode (i : Info) : List Str := removeDuplicates (isort lt16 i.feats)
+def sortedIdentitiesCode (i : Info) : List Identity := isort (identityLessThan lt8) i.ids
+def sortedFeaturesCode (i : Info) : List Str := removeDuplicates (isort lt8 i.feats)
 
-/-- the form part of S.  `fieldMap.keys()` is ascending and `std::sort(keys)` leaves it so; `fieldMap.value(key)`
-is the entry itself, hence iterating the map without FORM_TYPE. -/
+/-- `std::sort(keys, octetLessThan)` applied to the entries -/
+def keyLt8 (a b : Field) : Bool := lt8 a.key b.key
+
+/-- the form part of S.  `fieldMap.keys()` (distinct keys, in the map's UTF-16 order) is re-sorted with
+`octetLessThan`; `fieldMap.value(key)` is the entry itself, hence sorting the entries without FORM_TYPE by key. -/
 def formStrCode : Option (List Field) → Str
   | none => []
   | some fields =>
@@ -161,7 +168,8 @@ def formStrCode : Option (List Field) → Str
     match fieldMap.find? (fun f => f.key = formTypeKey) with
     | none => []                                     -- qWarning, form ignored
     | some ft =>
-      ft.value.toStr ++ '<' :: ((fieldMap.filter (fun f => f.key ≠ formTypeKey)).flatMap fieldStrCode)
+      ft.value.toStr ++ '<' ::
+        ((isort keyLt8 (fieldMap.filter (fun f => f.key ≠ formTypeKey))).flatMap fieldStrCode)
 
 /-- the string S of `QXmppDiscoveryIq::verificationString()` -/
 def verStringCode (i : Info) : Str :=
@@ -194,7 +202,7 @@ def formStrSpec : Option (List Field) → Str
     | none => []
     | some ft =>
       ft.value.wire.flatten ++ '<' ::
-        ((isort (fun a b : Field => lt8 a.key b.key) (fields.filter (fun f => f.key ≠ formTypeKey))).flatMap fieldStrSpec)
+        ((isort keyLt8 (fields.filter (fun f => f.key ≠ formTypeKey))).flatMap fieldStrSpec)
 
 /-- the XEP's domain for the form: `var` unique (XEP-0004 §3.2), FORM_TYPE carries exactly one value -/
 def XepForm : Option (List Field) → Prop
@@ -233,10 +241,11 @@ structure ClientCfg where
   infoForm : Option (List Field)
   node : Str
 
-/-- `QXmppDiscoveryManager::capabilities()` -/
+/-- `QXmppDiscoveryManager::capabilities()`; `features.removeDuplicates()` since repo commit eee8133
+"disco#info replies and capabilities may list the same feature twice" -/
 def capabilities (c : ClientCfg) : Info :=
   { ids := { category := c.category, type := c.type, lang := [], name := c.name } :: c.extIdentities.flatten
-    feats := c.baseFeatures ++ c.extFeatures.flatten
+    feats := removeDuplicates (c.baseFeatures ++ c.extFeatures.flatten)
     form := c.infoForm }
 
 /-- `QXmppClientPrivate::addProperCapability`: the `ver` put into `<c xmlns='http://jabber.org/protocol/caps'/>` -/
